@@ -355,6 +355,7 @@ func (s *Server) checkAndAssignLocked(next jmessages) tasks {
 			t.m = s.assignLocked(t.ctx, t.hreq.method)
 			if t.m == nil {
 				t.err = errNoSuchMethod.WithData(t.hreq.method)
+				s.cancelLocked(id) // the task will not run; release its ID
 			}
 		}
 
